@@ -14,7 +14,7 @@ import json
 import lib, pipes, execcorr as X, semstrict as SS
 from props.C01 import load_cases
 
-N = {"quick": 90, "thorough": 700}
+N = {"quick": 100, "thorough": 750}
 VARIANTS = [("pgtext", "postgres", None),
             ("pgtext_cte_elim", "postgres", {"use_cte_elim": True}),
             ("pgtext_no_with", "postgres", {"use_with": False})]
@@ -35,7 +35,9 @@ def run(chk):
         "function semantics, type checking of the text) rests on the written flavour fl_postgres and is not tied to any implementation",
         "a difference caused by SQLite's ascending NULLS FIRST is a convention of the executing engine, counted as engine_convention_nulls_first_asc",
         "C01's assumptions (fragment of Model/Sem.v, accepted convention, comparison rule)"]
-    chk.cov["rule"] = ("C01's stream, biased to pipelines that reuse a sub-pipeline (shared node on both sides of a join / concat_rows); every case evaluated on Pandas "
+    chk.cov["rule"] = ("C01's stream, biased to pipelines that reuse a sub-pipeline (shared node on both sides of a join / concat_rows) and to the paths only this dialect takes "
+                       "(native RIGHT / FULL joins on same-named keys with unmatched rows on the right and on the left; joins / concats whose branches apply textually identical "
+                       "extends, plain and windowed, to different tables or to differently filtered copies of one table); every case evaluated on Pandas "
                        "and as PostgreSQL-dialect text on SQLite under three option sets: default, use_cte_elim=True, use_with=False; non-trivial = depth >= 2")
     corpus, findings = load_cases("C02")
     SS.run_check(chk, "C02", VARIANTS, N[chk.tier], corpus, findings, deep=(chk.tier == "thorough"), engine_artifacts=("nulls_first_asc",), share_bias=True)
